@@ -28,13 +28,24 @@ def canon(x):
         if name == 'Lexicon':
             return [name, x.specifier()]
         if name == 'Synset':
-            from wnmc.observe import ili_of
-            return [name, getattr(x, 'id', None), ili_of(x)]
+            from wnmc.observe import ili_of, lexspec
+            return [name, getattr(x, 'id', None), ili_of(x), lexspec(x, _SMAP[0])]
+        if name in ('Word', 'Sense'):
+            # two versions of one lexicon share every id: the owning lexicon is part of what is returned
+            from wnmc.observe import lexspec
+            return [name, getattr(x, 'id', None), lexspec(x, _SMAP[0])]
+        if name == 'ILI':
+            return [name, getattr(x, 'id', None), getattr(x, 'status', None), x.definition()]
         return [name, getattr(x, 'id', None), None]
     return repr(x)
 
 
+_SMAP = [{}]
+
+
 def text(x):
+    from wnmc.observe import spec_map
+    _SMAP[0] = spec_map()        # of the database that is current when the result is written down
     return json.dumps(canon(x), ensure_ascii=False)
 
 
@@ -236,6 +247,16 @@ def items(dirs):
             add(f'q:nav:{tag}', db, lambda kw=kw: (lambda w: [[s, s.word(), s.synset(), s.examples(), s.counts(), s.frames(), s.relations(), s.get_related(), s.relation_map(), s.get_related_synsets()] for s in w.senses()])(W(expand='', **kw)))
             add(f'q:synsets:{tag}', db, lambda kw=kw: (lambda w: [[x, x.senses(), x.words(), x.lemmas(), x.definition(), x.examples(), x.relations(), x.get_related(), x.relation_map(), x.hypernyms(), list(x.closure('hypernym')), x.ili and [x.ili.id, x.ili.status]] for x in w.synsets()])(W(**kw)))
             add(f'q:words:{tag}', db, lambda kw=kw: (lambda w: [[x, x.senses(), x.synsets(), x.derived_words(), x.metadata()] for x in w.words()])(W(expand='', **kw)))
+    add('q:more:uni', 'uni', lambda: (lambda w: [
+        [[x, x.hyponyms(), x.holonyms(), x.meronyms(), list(x.relation_paths('hypernym', 'instance_hypernym')),
+          [f.pronunciations() and [[p.value, p.variety] for p in f.pronunciations()] for wd in x.words() for f in wd.forms()]]
+         for x in w.synsets()],
+        [[s, list(s.relation_paths()), s.translate(lang='es'), s.translate(lexicon='c:1')] for s in w.senses()],
+        [[x, x.translate(lang='es')] for x in w.words()],
+        [w.synsets(ili=i) for i in ('i1', 'i2', 'i4', 'i9', 'zz')],
+        [wn.word('a-e1', lexicon='a:1'), wn.sense('a-s1', lexicon='a:2'), wn.synset('a-ss1', lexicon='a:1'), wn.ili('i1'), w.ili('i2')],
+        [[lx, lx.extensions(depth=1), lx.extensions(depth=2)] for lx in wn.lexicons()],
+    ])(W(lexicon='a:1 x:1 y:1 a:2')))
     add('q:translate:uni', 'uni', lambda: (lambda w: [[x, x.translate(lang='es'), x.translate(lexicon='c:1'), x.translate(lexicon='a:*')] for x in w.synsets()])(W(lexicon='a:1')))
     add('q:module-level:uni', 'uni', lambda: [wn.lexicons(), wn.lexicons(lang='en'), wn.words('alpha'), wn.synsets('alpha', pos='n'), wn.senses('alfa'), wn.ilis(), wn.ilis(status='active'), wn.projects()[:2]])
     add('q:lexicon-info:uni', 'uni', lambda: [[lx, lx.requires(), lx.extends(), lx.extensions(), lx.describe(), lx.metadata()] for lx in wn.lexicons()])
@@ -315,7 +336,7 @@ def items(dirs):
                 for g_ in gone:
                     wn.remove(g_, progress_handler=None)
                 env.add_resource(mk.resource([newlex], '1.3'))
-                return reads()
+                return text(reads())          # written down while the temporary database is still current
             finally:
                 env.close_pool()
                 wn.config.data_directory = src
